@@ -96,6 +96,68 @@ theorem end_to_end_torch_every_factor {M N : ℕ} (hM : 3 ≤ M) (hN : 3 ≤ N) 
     integer_shift_torch_every_factor_of_axis_coeffs hM hN x hx a b up h10 h01
   exact ⟨r, c, Prod.ext hr hc, sign_convention (by omega) (by omega) x a b r c hrd hcd⟩
 
+/-! ### refinement to a closed-form specification -/
+
+/-- the abstract specification of both estimators on an integer-shifted copy: the representative of `k` modulo `M` in
+`[-M/2, M/2)`, in closed form -/
+def centredInt (M : ℕ) (k : ℤ) : ℤ := (k + ((M / 2 : ℕ) : ℤ)) % (M : ℤ) - ((M / 2 : ℕ) : ℤ)
+
+/-- `IsCentredRep` determines the value: it is the closed form -/
+theorem isCentredRep_centredInt {M : ℕ} (hM : 0 < M) {k : ℤ} {v : ℝ} (h : IsCentredRep M k v) :
+    v = ((centredInt M k : ℤ) : ℝ) := by
+  obtain ⟨r, hv, ⟨c, hc⟩, h1, h2⟩ := h
+  have hk : k + ((M / 2 : ℕ) : ℤ) = (r + ((M / 2 : ℕ) : ℤ)) + (M : ℤ) * (-c) := by linarith
+  have hr : centredInt M k = r := by
+    unfold centredInt
+    rw [hk, Int.add_mul_emod_self_left, Int.emod_eq_of_lt (by omega) (by omega)]
+    ring
+  rw [hv, hr]
+
+/-- **Refinement, NumPy entry point**: on an integer-shifted copy `cross_correlation_shift` IS the closed-form
+specification `(centredInt M (-a), centredInt N (-b))` — every shape ≥ 3 × 3, translation in or outside the cell, factor
+`0, 1, 2, …`, and `max_shift` that leaves the true lag visible. -/
+theorem np_refines_spec {M N : ℕ} (hM : 3 ≤ M) (hN : 3 ≤ N) (x : ℕ → ℕ → ℝ)
+    (hx : UniquePeak M N x) (hpos : 0 < cc M N x x 0 0) (a b : ℤ) (up : ℕ) (ms : Option ℝ)
+    (hvis : ∀ m, ms = some m →
+      ((freq M (wrap M (-a)) * freq M (wrap M (-a)) + freq N (wrap N (-b)) * freq N (wrap N (-b)) : ℤ) : ℝ) < m * m)
+    (h10 : (dft2At M N x 1 0).re ≠ 0 ∨ (dft2At M N x 1 0).im ≠ 0)
+    (h01 : (dft2At M N x 0 1).re ≠ 0 ∨ (dft2At M N x 0 1).im ≠ 0) :
+    shiftNp M N up (masked M N ms (ccRealFFT M N x (rollImg M N x a b)))
+        (ccRealFFT M N x (rollImg M N x a b)) (ccF (dft2At M N x) (dft2At M N (rollImg M N x a b)))
+      = (((centredInt M (-a) : ℤ) : ℝ), ((centredInt N (-b) : ℤ) : ℝ)) := by
+  have h := integer_shift_np_every_factor_of_axis_coeffs hM hN x hx hpos a b up ms hvis h10 h01
+  exact Prod.ext (isCentredRep_centredInt (by omega) h.1) (isCentredRep_centredInt (by omega) h.2)
+
+/-- **Refinement, torch entry point**: the same closed form, so on integer-shifted copies the two estimators agree with
+each other at every pair of factors. -/
+theorem torch_refines_spec {M N : ℕ} (hM : 3 ≤ M) (hN : 3 ≤ N) (x : ℕ → ℕ → ℝ)
+    (hx : UniquePeak M N x) (a b : ℤ) (up : ℕ)
+    (h10 : (dft2At M N x 1 0).re ≠ 0 ∨ (dft2At M N x 1 0).im ≠ 0)
+    (h01 : (dft2At M N x 0 1).re ≠ 0 ∨ (dft2At M N x 0 1).im ≠ 0) :
+    shiftTorch M N up (ccRealFFT M N x (rollImg M N x a b))
+        (ccF (dft2At M N x) (dft2At M N (rollImg M N x a b)))
+      = (((centredInt M (-a) : ℤ) : ℝ), ((centredInt N (-b) : ℤ) : ℝ)) := by
+  have h := integer_shift_torch_every_factor_of_axis_coeffs hM hN x hx a b up h10 h01
+  exact Prod.ext (isCentredRep_centredInt (by omega) h.1) (isCentredRep_centredInt (by omega) h.2)
+
+/-- the specification is odd except at the tie: swapping the roles of the two images (`a ↦ -a`) negates it -/
+theorem centredInt_neg {M : ℕ} (hM : 0 < M) (k : ℤ) (htie : 2 * centredInt M k ≠ -(M : ℤ)) :
+    centredInt M (-k) = -centredInt M k := by
+  have hM' : (0 : ℤ) < M := by exact_mod_cast hM
+  have hlo := Int.emod_nonneg (k + ((M / 2 : ℕ) : ℤ)) (ne_of_gt hM')
+  have hhi := Int.emod_lt_of_pos (k + ((M / 2 : ℕ) : ℤ)) hM'
+  have hdiv := Int.emod_add_mul_ediv (k + ((M / 2 : ℕ) : ℤ)) (M : ℤ)
+  set e := (k + ((M / 2 : ℕ) : ℤ)) % (M : ℤ) with he
+  set d := (k + ((M / 2 : ℕ) : ℤ)) / (M : ℤ) with hd
+  have hc : centredInt M k = e - ((M / 2 : ℕ) : ℤ) := rfl
+  rw [hc] at htie ⊢
+  -- -k + h = (2h - e) + M * (-d)  with 2h - e in [0, M)
+  have hk : -k + ((M / 2 : ℕ) : ℤ) = (2 * ((M / 2 : ℕ) : ℤ) - e) + (M : ℤ) * (-d) := by linarith
+  have hh : 2 * ((M / 2 : ℕ) : ℤ) = (M : ℤ) ∨ 2 * ((M / 2 : ℕ) : ℤ) = (M : ℤ) - 1 := by omega
+  unfold centredInt
+  rw [hk, Int.add_mul_emod_self_left, Int.emod_eq_of_lt (by omega) (by omega)]
+  ring
+
 /-! ### `torch_phase_cross_correlation` (tomography/utils.py) -/
 
 /-- the per-axis centring `if shifts[i] > dim // 2: shifts[i] -= dim` returns the representative of the
@@ -229,6 +291,8 @@ example : ∀ i j, i < 3 → j < 3 →
     (fun i j => by unfold deltaImg; split <;> norm_num) 2 (-1)
 
 example : centreInt (wrap 5 (-(2 : ℤ))) 5 = -centreInt 2 5 := centreInt_neg (by norm_num) (by norm_num)
+
+example : centredInt 5 (-1) = -1 ∧ centredInt 5 (-3) = 2 ∧ centredInt 4 (-2) = -2 ∧ centredInt 4 2 = -2 := by decide
 
 example : centreInt 3 4 = -1 ∧ centreInt 2 4 = 2 ∧ centreInt 2 5 = 2 ∧ centreInt 3 5 = -2 := by decide
 
